@@ -1189,7 +1189,8 @@ for _cls in {type(_c) for _c in CONTRACTS}:
     if not _cls.target.startswith('@') and not getattr(_cls.env, '_c12_wrapped', False):
         _cls.env = _resolving_env(_cls.env)
 
-TRUSTED_BASE = ['pyvc engine: proxies, path forking, numpy spec table (column_stack / atleast_2d / concatenate / reshape layouts, sum(axis=0) = column-wise mathematical finite sum, elementwise broadcasting)',
+TRUSTED_BASE = ["Lean lemma L4a (lemmas/L4.lean, re-checked in the thorough tier): an invariant preserved by every operation holds after ANY finite sequence of operations; the reading that its hypothesis is the conjunction of this module's per-operation obligations is not mechanised",
+                'pyvc engine: proxies, path forking, numpy spec table (column_stack / atleast_2d / concatenate / reshape layouts, sum(axis=0) = column-wise mathematical finite sum, elementwise broadcasting)',
                 'scipy.spatial.distance.cdist(XA, XB, metric, **kw)[i, j] = metric_kw(XA[i], XB[j]): pure, row-wise; shape (nA, nB); ValueError on unequal widths; '
                 'closed form sqrt(sum_t w_t (a_t - b_t)^2) for metric=euclidean with optional w >= 0 (sanity-tested each run against the vector functions of scipy)',
                 'functools.partial: keyword binding, flattening of nested partials (sanity-tested)',
@@ -1203,7 +1204,7 @@ ASSUMPTIONS = ['A-REAL: floats are reals (the Welford update exists because they
                'update_distance: every column of scale is non-zero (a constant summary column gives weight inf and NaN distances: the formula of the property is undefined there)',
                'Rejection.__init__/_merge_batch: concrete distance nodes with 2 and 3 parents; user output_names enumerated exhaustively (None, every ordered subset of the parent names, each also with an unrelated name); model, node and base-class __init__ are recording stubs; the non-adaptive part of _merge_batch runs on a minimal buffer and is specified in C01',
                'history quantifier: store_ok(N) is the inductive invariant of a round (established by init_adaptation_round with N = 0, preserved by every add_data); '
-               'the induction over the calls of a round is the meta-argument, each step is an obligation',
+               'the induction over the calls of a round is Lean lemma L4a (lemmas/L4.lean), each step is an obligation',
                'an arbitrary column / row is a free constant of the VC (validity for it = validity for all columns / rows)']
 NOT_PROVED = ['"numbers and widths of summaries": widths and batch sizes are symbolic (all values), but the NUMBER of summaries is concrete per contract - proved for tuples of 1 to 5 '
               'summaries in the scalar/vector patterns s, v, ss, sv, vs, vsv, svvs, vssv, vsvs, sssvs (python tuples have no symbolic arity in the engine); other patterns and larger arities are not decided',
@@ -1284,3 +1285,5 @@ def replay_refuted(cname, rf):
 def replay_input(inp):
     from bounded import c12 as b
     return b.replay_input(inp)
+
+USES_LEAN_LEMMAS = ['L4a invariant after any operation sequence']      # re-checked with lean (selftest/lean_check.sh) in the thorough tier
